@@ -55,13 +55,11 @@ CHECKS = {
 }
 
 PENDING = {
- '_C01': "check under construction in this round (soundness/completeness proof of run vs Sem not yet registered)",
  'C03': "check under construction (out-of-window invariant and ASan/hook run not yet registered)",
  'C04': "check under construction", 'C05': "check under construction", 'C06': "check under construction",
- 'C07': "check under construction", 'C08': "check under construction", '_C09': "check under construction",
- 'C10': "check under construction (leaf model being built)", 'C11': "check under construction", 'C12': "check under construction",
+ 'C07': "check under construction", 'C08': "check under construction", 'C10': "check under construction (leaf model being built)", 'C11': "check under construction", 'C12': "check under construction",
  'C13': "check under construction", 'C14': "check under construction", 'C15': "check under construction (leaf model being built)",
- '_C16': "check under construction (leaf model being built)", 'C18': "check under construction", 'C20': "check under construction",
+ 'C18': "check under construction", 'C20': "check under construction",
 }
 
 def main():
